@@ -113,6 +113,7 @@ def convert(recs, name):
     evs = [{"e": "reset"}]
     src = [None]
     last_write = None
+    written, fromwritten = set(), set()
     nulpaths = set()    # files holding NUL bytes: outside the conventional grammar (C04's business), reads of them are not predicted
     nodelim = set()     # handles of objects parsed with an EMPTY delimiter set: keys only, their values are not specified (C02)
 
@@ -151,6 +152,8 @@ def convert(recs, name):
         elif k == "readfile":
             p = unhex(r["path"])
             (nodelim.add if unhex(r["delim"]) == b"" else nodelim.discard)(r["h"])
+            # an object read from a file that econf_writeFile produced: its line numbers depend on the writer's layout
+            (fromwritten.add if (p is not None and normp(p) in written) else fromwritten.discard)(r["h"])
             add({"e": "readfile", "h": r["h"], "cb": r["cb"], "path": codes(normp(p)) if p is not None else [], "delim": codes(unhex(r["delim"]) or b""),
                  "comment": codes(unhex(r["comment"]) or b""), "rc": r["rc"]}, r)
         elif k in ("readdirs", "readhist"):
@@ -180,6 +183,8 @@ def convert(recs, name):
             add({"e": "write", "h": r["h"], "path": codes(p), "rc": r["rc"], "dir_ok": r["dir_ok"]}, r)
             # (objects parsed with an empty delimiter set: values unspecified, so are the bytes written for them)
             last_write = p if (r["rc"] == "ECONF_SUCCESS" and r["h"] not in nodelim) else None
+            if r["rc"] == "ECONF_SUCCESS":
+                written.add(p)
         elif k == "settag":
             add({"e": "settag", "h": r["h"], "which": r["which"], "tag": r["tag"]}, r)
         elif k in ("keys", "groups", "get") and r.get("rnull"):
@@ -227,7 +232,7 @@ def convert(recs, name):
         elif k == "ext":
             f = unhex(r.get("file"))
             add({"e": "ext", "h": r["h"], "g": c_opt(unhex(r["g"])), "k": c_opt(unhex(r["k"])), "rc": r["rc"], "line": r.get("line", 0),
-                 "file": codes(normp(f)) if f else [], "cmp_path": False, "cb": codes(unhex(r.get("cb")) or b""), "ca": codes(unhex(r.get("ca")) or b""),
+                 "file": codes(normp(f)) if f else [], "cmp_path": False, "cmp_layout": r["h"] not in fromwritten, "cb": codes(unhex(r.get("cb")) or b""), "ca": codes(unhex(r.get("ca")) or b""),
                  "vals": [codes(unhex(x)) for x in r.get("vals", []) if unhex(x)]}, r)
         else:
             add({"e": "opaque", "h": r.get("h", 0)}, r)
